@@ -76,6 +76,6 @@ C01_Docs  == SetToSeq(C01_FlatDocs \cup C01_DeepDocs \cup C01_NullDocs)
 \* two keys at the top level (all pairs of key kinds) over a smaller value set
 C01_V2 == TagAll(Leaves({Atom("i", "1"), Atom("n", "")}) \cup {SD("list", NoVal, <<<<IKey(0), SD("scalar", Atom("i", "1"), <<>>)>>>>)},
                  {"none", "force", "del", "unsafe"})
-C01_Docs2 == SetToSeq(TagAll(MapsOver(<<C01_KA, C01_KU, IKey(0), FKey("1.5")>>, C01_V2), {"none", "merge", "unsafe"}))
+C01_Docs2 == SetToSeq(TagAll(MapsOverMax(<<C01_KA, C01_KU, IKey(0), FKey("1.5")>>, C01_V2, 2), {"none", "merge", "unsafe"}))     \* (all four keys at once: 85,683 documents, two hours of TLC)
 
 =============================================================================
